@@ -48,6 +48,8 @@ FLOORS["quick"].update({'reentries': 150})
 FLOORS["thorough"].update({'reentries': 750})
 FLOORS["quick"].update({'puts_before_the_run': 15, 'rate_reassignments': 12})
 FLOORS["thorough"].update({'puts_before_the_run': 75, 'rate_reassignments': 60})
+FLOORS["quick"].update({'terminal_port_cases': 20})
+FLOORS["thorough"].update({'terminal_port_cases': 100})
 
 
 def plan(tier):
